@@ -37,6 +37,8 @@ func newSolver(kind string, timeoutMs int) (*solver, error) {
 		cmd = exec.Command("z3-new", "-in", fmt.Sprintf("-t:%d", timeoutMs))
 	case "cvc5":
 		cmd = exec.Command("cvc5", "--incremental", "--lang=smt2", fmt.Sprintf("--tlimit-per=%d", timeoutMs), "--produce-models")
+	case "cvc5-int":
+		cmd = exec.Command("cvc5", "--incremental", "--lang=smt2", "--solve-bv-as-int=sum", fmt.Sprintf("--tlimit-per=%d", timeoutMs), "--produce-models")
 	default:
 		return nil, fmt.Errorf("unknown solver %q", kind)
 	}
@@ -54,7 +56,7 @@ func newSolver(kind string, timeoutMs int) (*solver, error) {
 	}
 	s := &solver{kind: kind, cmd: cmd, in: bufio.NewWriterSize(in, 1<<16), inRaw: in, out: bufio.NewReaderSize(out, 1<<16)}
 	s.send("(set-option :produce-models true)")
-	if kind == "cvc5" {
+	if strings.HasPrefix(kind, "cvc5") {
 		s.send("(set-logic ALL)")
 	}
 	return s, nil
